@@ -269,7 +269,24 @@ def generate(rng, config):
     ops = []
     for _ in range(nops):
         ops.append(_gen_api_op(rng, klass))
-    return {"class": klass, "ops": ops}
+    case = {"class": klass, "ops": ops}
+    if klass == "CNF" and rng.random() < 0.08:
+        # the history starts from a formula read from a DIMACS text, which
+        # may mention a variable that it does not declare: refused, or at
+        # least never a formula that mentions what it does not own
+        n = rng.randint(0, 5)
+        cls = [[rng.choice([1, -1]) * rng.randint(1, max(n, 1))
+                for _ in range(rng.randint(0, 3))] for _ in range(
+                    rng.randint(0, 4))]
+        if n == 0:
+            cls = [[] for _ in cls]
+        if cls and rng.random() < 0.6:
+            c = rng.choice(cls)
+            c.insert(rng.randint(0, len(c)),
+                     rng.choice([1, -1, -1]) * (n + rng.randint(1, 3)))
+        case["from_text"] = "p cnf %d %d\n" % (n, len(cls)) + "".join(
+            " ".join(map(str, c + [0])) + "\n" for c in cls)
+    return case
 
 
 def _lits_spec(rng):
@@ -600,6 +617,21 @@ def _exec_api(case, ctx, mon):
     klass = case["class"]
     F = CNF() if klass == "CNF" else OPB()
     count = 0
+    if case.get("from_text") is not None:
+        import io
+        r0 = call(CNF.from_file, io.StringIO(case["from_text"]))
+        ctx.fault("history_starts_from_a_dimacs_text")
+        if r0[0] == "ok":
+            F = r0[1]
+            n0, mx0, prob0 = scan(F)
+            if prob0:
+                raise Violation("C10/api/literal-range/from_file",
+                                "%s; text=%r" % (prob0, case["from_text"]))
+            count = F.number_of_variables()
+        elif not isinstance(r0[1], ValueError):
+            raise Violation("C10/api/from_file/%s" %
+                            exc_signature(r0[1], REPO),
+                            "%r; text=%r" % (r0[1], case["from_text"]))
     maps = []
     refused = mutated = 0
 
